@@ -20,7 +20,7 @@ func init() { Registry["C20"] = C20 }
 func C20(p *ir.Program, r *report.R) {
 	c := C{p, r}
 	r.Floor = 170
-	r.Explain = "Decided: (charge before execute) in Interpreter.Run the call of operation.execute is dominated by operation.valid, successful validateStack and enforceRestrictions, a nil gasCost error and contract.UseGas(cost) true, with the memory-size overflow tests on the memorySize path and memory resized before execution; Contract.UseGas subtracts only under Gas >= gas; (jump table registry) every operation literal of vm/evm has execute, gasCost, validateStack and valid:true, and every entry whose execute function touches memory (Set/Set32/Get/GetPtr/GetCopy, directly or through a same-package helper) declares memorySize; (frame atomicity) every EVM and WASM frame function that takes a state snapshot reverts to that same snapshot on every path on which the frame's error is non-nil, takes the snapshot before transferring value, transfers only after the depth and balance checks, and burns the remaining gas unless the error is the explicit revert; app.CallWasmContract reverts on both error paths; (determinism) no map iteration, clock-dependent value, randomness or goroutine in vm/evm execution code outside the tracer; (crash-free) the explicit panic sites of vm/evm reachable from Run equal the reviewed table. ADDED after seeded-change testing: The revert-on-error rule is path-sensitive (the returned error value is followed backwards through phis and local stores; branch conditions on one SSA value are kept consistent); slices bounded by big.Int.Uint64() need BitLen <= 64 and <= len or a BigMin clamp; CREATE/CREATE2 hand the child exactly the amount charged with UseGas, the CALL family evm.callGasTemp (+ stipend). NOT decided: termination, gas totals, memory-offset arithmetic inside the gas/memory functions, the third-party tc-wasm engine."
+	r.Explain = "Decided: (charge before execute) in Interpreter.Run the call of operation.execute is dominated by operation.valid, successful validateStack and enforceRestrictions, a nil gasCost error and contract.UseGas(cost) true, with the memory-size overflow tests on the memorySize path and memory resized before execution; Contract.UseGas subtracts only under Gas >= gas; (jump table registry) every operation literal of vm/evm has execute, gasCost, validateStack and valid:true, and every entry whose execute function touches memory (Set/Set32/Get/GetPtr/GetCopy, directly or through a same-package helper) declares memorySize; (frame atomicity) every EVM and WASM frame function that takes a state snapshot reverts to that same snapshot on every path on which the frame's error is non-nil, takes the snapshot before transferring value, transfers only after the depth and balance checks, and burns the remaining gas unless the error is the explicit revert; app.CallWasmContract reverts on both error paths; (determinism) no map iteration, clock-dependent value, randomness or goroutine in vm/evm execution code outside the tracer; (crash-free) the explicit panic sites of vm/evm reachable from Run equal the reviewed table. ADDED after seeded-change testing: The revert-on-error rule is path-sensitive (the returned error value is followed backwards through phis and local stores; branch conditions on one SSA value are kept consistent); slices bounded by big.Int.Uint64() need BitLen <= 64 and <= len or a BigMin clamp; CREATE/CREATE2 hand the child exactly the amount charged with UseGas, the CALL family evm.callGasTemp (+ stipend). Rounds 4-5: EVM.Reset empties the per-transaction fee lists; every call-family gas function leaves the forwarded amount in evm.callGasTemp; every frame is created with a non-nil value (or is a delegate frame). NOT decided: termination, gas totals, memory-offset arithmetic inside the gas/memory functions, the third-party tc-wasm engine."
 	r.Trusted = []string{"tc-wasm engine (third party)", "big.Int arithmetic"}
 
 	// ---- charge before execute ---------------------------------------------------------
@@ -538,6 +538,78 @@ func C20(p *ir.Program, r *report.R) {
 			}
 			r.Check("K3", "evm/fees-append-or-truncate-only/"+ir.FuncName(ir.EnclosingTop(st.Fn)), p.InstrPos(st.Instr), st.Kind != "elem", "evm.fees is only appended to, truncated or reset, never edited in place")
 		}
+	}
+
+	// ---- the gas handed to a callee is the gas that was charged for it ---------------------------------------------
+	// The gas function of every call-family opcode computes the forwarded amount with callGas(..) and
+	// leaves it in evm.callGasTemp; the opcode's execute function forwards evm.callGasTemp. A gas function
+	// that keeps the amount in a local makes the opcode forward what the PREVIOUS call left there: gas
+	// nobody paid for.
+	{
+		cgt := p.Field("vm/evm", "EVM.callGasTemp")
+		stored := map[*ssa.Function]bool{}
+		for _, s := range p.Stores(cgt) {
+			if strings.HasPrefix(ir.Render(s.Val), "evm.callGas(") && strings.HasSuffix(ir.Render(s.Val), "#0") {
+				stored[s.Fn] = true
+			}
+		}
+		nG := 0
+		for _, f := range p.Funcs {
+			if f.Pkg == nil || ir.RelPkg(f.Pkg.Pkg) != "vm/evm" || f.Blocks == nil || strings.HasSuffix(p.Pos(f.Pos()), "_test.go") {
+				continue
+			}
+			if len(ir.Calls(f, "evm.callGas")) == 0 {
+				continue
+			}
+			nG++
+			r.Check("K5", "evm/forwarded-gas/"+ir.FuncName(f)+"/left-in-callGasTemp", p.Pos(f.Pos()), stored[f], "the result of callGas is stored in evm.callGasTemp, as in the sibling gas functions")
+		}
+		nR := 0
+		for _, f := range p.Funcs {
+			if f.Pkg == nil || ir.RelPkg(f.Pkg.Pkg) != "vm/evm" || f.Blocks == nil || !strings.HasPrefix(f.Name(), "op") {
+				continue
+			}
+			reads := false
+			ir.Instrs(f, func(in ssa.Instruction) {
+				if fa, ok := in.(*ssa.FieldAddr); ok && ir.FieldVar(fa.X, fa.Field) == cgt {
+					reads = true
+				}
+			})
+			if reads {
+				nR++
+			}
+		}
+		r.Check("K5", "evm/forwarded-gas/sites", "-", nG >= 4 && nR == nG, fmt.Sprintf("%d gas functions compute a forwarded amount, %d opcodes forward evm.callGasTemp", nG, nR))
+	}
+
+	// ---- a frame always has a value ------------------------------------------------------------------------
+	// CALLVALUE copies contract.value into a pooled integer (big.Int.Set): a nil value panics inside the
+	// interpreter. Every frame is created with a non-nil value, except the delegate frame, whose value
+	// AsDelegate takes from the parent.
+	{
+		n := 0
+		for _, f := range p.Funcs {
+			if f.Pkg == nil || ir.RelPkg(f.Pkg.Pkg) != "vm/evm" || f.Blocks == nil || strings.HasSuffix(p.Pos(f.Pos()), "_test.go") {
+				continue
+			}
+			for _, call := range ir.Calls(f, "evm.NewContract") {
+				n++
+				v := Arg(call, 2)
+				okV := v != "nil"
+				if !okV {
+					// ... immediately turned into a delegate frame
+					if cv, isV := call.(ssa.Value); isV && cv.Referrers() != nil {
+						for _, u := range *cv.Referrers() {
+							if uc, isC := u.(*ssa.Call); isC && ir.CalleeName(uc) == "evm.Contract.AsDelegate" {
+								okV = true
+							}
+						}
+					}
+				}
+				r.Check("K1", "evm/frame-value-non-nil/"+ir.FuncName(f), p.InstrPos(call.(ssa.Instruction)), okV, "NewContract gets a non-nil value (or the frame is a delegate frame): "+v)
+			}
+		}
+		r.Check("K1", "evm/frame-value-non-nil/sites", "-", n >= 6, fmt.Sprintf("%d frames created", n))
 	}
 
 	// ---- one EVM serves every transaction of a block: Reset empties the per-transaction lists --------------------
